@@ -296,6 +296,13 @@ def crud_cases(rng, n, length):
         names = [1, 2]
         probes = [gen_route(rng) for _ in range(2)]
         malformed = rng.random() < 0.25
+        if rng.random() < 0.6:
+            # start from a live chain: sets of every kind, a statement on two or three of them,
+            # a policy and both assignments, so that in-use checks have something to protect
+            kinds = rng.sample(range(6), rng.randint(1, 3))
+            conds = [[k, 1, (rng.choice([0, 2]) if k < 2 else rng.randrange(3))] for k in kinds]
+            ops += setup([SETGEN[k](rng, 1) for k in range(6)], [(1, conds, rng.choice([[], [1], [2]]), gen_actions(rng, 0.2, allow_nh=False))],
+                         [(1, [1])], [(1, rng.choice([1, 2]), [1])] + ([(0, rng.choice([1, 2]), [1])] if rng.random() < 0.5 else []))
         for _ in range(rng.randint(length // 2, length)):
             x = rng.random()
             if x < 0.22:
@@ -372,14 +379,16 @@ def crud_directed(rng):
 def gen_cases(rng, tier):
     q = tier == 'quick'
     cases = []
-    cases += prefix_cases(rng, 60 if q else 600)
-    cases += aspath_cases(rng, 60 if q else 600)
-    cases += aspath_cases(rng, 10 if q else 60, regex_p=1.0, cls='aspath_regex')
-    cases += community_cases(rng, 60 if q else 500)
-    cases += chain_cases(rng, 120 if q else 1500)
-    cases += length_cases(rng, 6 if q else 40)
-    cases += api_cases(rng, 20 if q else 200)
+    cases += prefix_cases(rng, 150 if q else 1500)
+    cases += aspath_cases(rng, 150 if q else 1500)
+    cases += aspath_cases(rng, 12 if q else 100, regex_p=1.0, cls='aspath_regex')
+    cases += community_cases(rng, 120 if q else 1200)
+    cases += chain_cases(rng, 250 if q else 3000)
+    cases += length_cases(rng, 6 if q else 60)
+    cases += api_cases(rng, 30 if q else 400)
     cases += med_cases(rng)
     cases += crud_directed(rng)
-    cases += crud_cases(rng, 150 if q else 2000, 14 if q else 30)
+    if not q:
+        for _ in range(20): cases += crud_directed(rng)[:6]
+    cases += crud_cases(rng, 400 if q else 5000, 14 if q else 30)
     return cases
